@@ -365,7 +365,93 @@ def check_invalid_text(v, label, text):
 
 # ---------------------------------------------------------------------------------------------
 
+# ---------------------------------------------------------------------------------------------
+# copies between messages whose encoding characters differ (or agree on a custom set), and group text
+
+WORDS = ('a', 'B7', 'xy', 'Q', 'n1', 'Zed', '42', 'kLm')
+
+
+@st.composite
+def copy_cases(draw, cells):
+    v, m = draw(st.sampled_from(cells))
+    ec1 = draw(S.delimiter_sets(v, message_level=True, default_weight=3))
+    ec2 = draw(st.one_of(st.just(ec1), S.delimiter_sets(v, message_level=True, default_weight=2)))
+    for e in (ec1, ec2):
+        if T.vkey(v) < [2, 7]:
+            e.pop('TRUNCATION', None)
+    words = st.sampled_from(WORDS)       # plain in every delimiter set: the copy must carry the STRUCTURE over
+    return {'kind': 'copy', 'v': v, 'm': m, 'ec1': {k: ec1[k] for k in ec1 if k not in ('SEGMENT', 'GROUP')},
+            'ec2': {k: ec2[k] for k in ec2 if k not in ('SEGMENT', 'GROUP')},
+            'comps': draw(st.lists(st.lists(words, min_size=1, max_size=3), min_size=1, max_size=3)),
+            'reps': draw(st.integers(1, 2)), 'how': draw(st.sampled_from(['segment', 'field', 'group', 'group-text']))}
+
+
+def _first_group_with_pid(v, m):
+    """a top-level group of the structure whose first child is a segment with a complex field (name, segment, field name, components)"""
+    for (n, r, card, kind) in T.struct_children(T.message_ref(v, m)):
+        if kind != 'GRP':
+            continue
+        kids = T.struct_children(r)
+        if kids and kids[0][3] == 'SEG' and kids[0][0] in T.lib(v).SEGMENTS and not T.segment_defect(v, kids[0][0]):
+            for row in T.seg_fields(v, kids[0][0]):
+                ch = T.ref_children(v, row[2])
+                if ch and row[3][1] != 0 and len(ch) >= 3 and all(T.ref_children(v, c[2]) for c in ch[:1]) is not None:
+                    return n, kids[0][0], row, ch
+    return None
+
+
+def check_copy(case):
+    from hl7apy.core import Message
+    v, m, how = case['v'], case['m'], case['how']
+    ec1, ec2 = R.full(case['ec1']), R.full(case['ec2'])
+    found = _first_group_with_pid(v, m)
+    if found is None:
+        case['_skipped'] = True
+        return []
+    gname, sname, (fname, i, fref, fcard), ch = found
+    comps = case['comps'][:len(ch)]
+
+    def model_line(ec):
+        # components are plain words (sub-component 1 of each component)
+        return R.enc_segment(sname, {i: ec['COMPONENT'].join(ec['SUBCOMPONENT'].join(c[:1 + (len(T.ref_children(v, ch[j][2]) or ()) > 1) * (len(c) - 1)]) for j, c in enumerate(comps))}, ec)
+    try:
+        donor = Message(m, version=v, validation_level=TOL, encoding_chars=dict(case['ec1']))
+        g = donor.add_group(gname)
+        seg = g.add_segment(sname)
+        f = seg.add_field(fname)
+        for j, c in enumerate(comps):
+            comp = f.add_component(ch[j][0])
+            sub = T.ref_children(v, ch[j][2])
+            if sub and len(sub) > 1:
+                for k, w in enumerate(c[:len(sub)]):
+                    comp.add_subcomponent(sub[k][0]).value = w
+            else:
+                comp.value = c[0]
+        if donor.to_er7().split('\r')[-1] != model_line(ec1):
+            return [('C07-copy-setup-differs', '%r vs %r' % (donor.to_er7().split('\r')[-1], model_line(ec1)))]
+        dest = Message(m, version=v, validation_level=TOL, encoding_chars=dict(case['ec2']))
+        if how == 'group':
+            setattr(dest, gname, getattr(donor, gname))
+        elif how == 'group-text':
+            setattr(dest, gname, model_line(ec2))
+        elif how == 'segment':
+            setattr(dest.add_group(gname), sname, getattr(g, sname))
+        else:
+            setattr(dest.add_group(gname).add_segment(sname), fname, getattr(seg, fname))
+        got = dest.to_er7().split('\r')[-1]
+        if got != model_line(ec2):
+            return [('C07-copy-between-messages:%s:%s' % (how, 'same-set' if case['ec1'] == case['ec2'] else 'other-set'),
+                     '%s %s %s.%s %r -> %r: destination encodes %r, expected %r' % (v, m, gname, sname, case['ec1'], case['ec2'], got, model_line(ec2)))]
+        if donor.to_er7().split('\r')[-1] != model_line(ec1):
+            return [('C07-copy-changed-the-source', repr(donor.to_er7().split('\r')[-1]))]
+    except Exception as e:
+        return [('C07-copy-raises:%s:%s' % (how, type(e).__name__), '%s %s: %s' % (v, m, e))]
+    return []
+
+
 def check(case, acc=None):
+    if case.get('kind') == 'copy':
+        return check_copy(case)
     if case.get('kind') == 'invalid':
         return check_invalid(case['v'], case['label'], case['bad'])
     if case.get('kind') == 'invalid-text':
@@ -416,6 +502,14 @@ def run_shard(shard, acc):
                     acc.violation(sig, case, detail)
                 acc.case(None, True, label='invalid-set-as-text', enumerated=True)
         return
+    if shard['kind'] == 'copy':
+        def run(case, acc):
+            vs = check_copy(case)
+            acc.case(h([case[k] for k in ('v', 'm', 'ec1', 'ec2', 'comps', 'how')]), not case.pop('_skipped', False) and case['ec1'] != case['ec2'],
+                     sample=case, label='copy:' + case['how'])
+            return vs
+        hyp_collect(acc, copy_cases([tuple(c) for c in shard['cells']]), run, shard['seed'], shard['n'], shard['shrink'])
+        return
     hyp_collect(acc, cases([tuple(c) for c in shard['cells']]), _run, shard['seed'], shard['n'], shard['shrink'])
 
 
@@ -425,4 +519,7 @@ def plan(tier, seed):
     n, k = (14, 150) if tier == 'quick' else (32, 800)
     for i in range(n):
         shards.append({'kind': 'model', 'cells': cells[i::n], 'seed': seed * 1000 + i, 'n': k, 'shrink': tier != 'quick'})
+    for i in range(2 if tier == 'quick' else 8):
+        shards.append({'kind': 'copy', 'cells': cells[i::(2 if tier == 'quick' else 8)], 'seed': seed * 1000 + 500 + i, 'n': 150 if tier == 'quick' else 1500,
+                       'shrink': tier != 'quick'})
     return shards
